@@ -219,7 +219,7 @@ fn check_exact(text: &str, key: sched::Key, out: &mut Out) {
 pub fn run(ctx: &Ctx) -> i32 {
     let shared = Shared::new("C03", ctx);
     QUICK.store(ctx.quick(), std::sync::atomic::Ordering::Relaxed);
-    flow_models(ctx, &shared, C03, FlowSpec { quick_depth: 3, thorough_depth: 4, extra: vec![], deep: true, seeded: true, t3: true, valuesets: true });
+    flow_models(ctx, &shared, C03, FlowSpec { quick_depth: 3, thorough_depth: 4, extra: vec![], deep: true, heavy_oracle: true, seeded: true, t3: true, valuesets: true });
     finish(
         ctx,
         &shared,
